@@ -49,7 +49,8 @@ MIXED = {
  "C02": "Proved by pyvc+z3 (for all inputs): controller.act.act sends exactly the assignment's tasks to the assignment's worker and only transfers datasets into the assignment's host; notify.is_last_output_of. ",
  "C03": "Proved by pyvc+z3: scheduler.core.has_awaitable / has_computable agree with their definitions over the whole State (the loop guard of controller.impl.run). ",
  "C04": "Proved by pyvc+z3: notify.consider_purge purges a dataset only when no task that consumes it is still to run / running and it is not a requested output still to be fetched, and touches no other dataset; "
-        "notify.consider_fetch queues a fetch only for a requested output not yet fetched; notify.is_last_output_of (60 VCs). ",
+        "notify.consider_fetch queues a fetch only for a requested output not yet fetched; notify.is_last_output_of; Bridge.transmit / fetch / purge / task_sequence put exactly one command on the wire, "
+        "to the source's data server (resp. the named host), naming source, target, dataset, the TARGET's data address and an index never used before (75 VCs). ",
  "C06": "Proved by pyvc+z3: Listener._recv_one (malformed frames never escape, well-formed ones are acked once and returned), ReliableSender.send/ack/maybe_retry with the class invariant "
         "(every unacknowledged message stays registered with its address, retries bounded by the budget, ack removes exactly that id; 192 VCs incl. loop invariants for every number of in-flight messages). ",
  "C07": "Proved by pyvc+z3: DataServer.store_payload (an arrival is announced at most once, last, only after allocate(key of the dataset, len(bytes), the SOURCE's decoding function) -> write of exactly "
